@@ -175,7 +175,97 @@ def run(ctx):
     ctx.ob('histogram', dv, h, wts == ('weights', 'self'),
            'the histogram must be weighted by self.weights; got `%s`' % (show(wts) if wts else None), construct='weights of histogramdd')
 
+    check_other_vector_paths(ctx, dv, h)
     check_domain(ctx)
+
+
+ONE_ATTR_TESTS = ('len(self.domain)==1', 'len(self.domain.attrs)==1', 'len(self.domain.shape)==1', 'len(self.df.columns)==1',
+                  'self.df.shape[1]==1')
+ONE_ATTR_SIZE = ('self.domain.size()', 'self.domain.shape[0]', 'self.domain.size(self.domain.attrs)', 'self.domain[self.domain.attrs[0]]',
+                 'self.domain.config[self.domain.attrs[0]]', 'self.domain.size(self.domain.attrs[0])', 'self.domain.size(None)')
+ONE_ATTR_COLUMN = ('self.df.values[:,0]', 'self.df.iloc[:,0]', 'self.df[self.domain.attrs[0]]', 'self.df.values.ravel()', 'self.df.values.flatten()',
+                   'self.df.to_numpy()[:,0]', 'self.df.iloc[:,0].values', 'self.df[self.domain.attrs[0]].values', 'self.df.values.reshape(-1)')
+
+
+def check_other_vector_paths(ctx, dv, hist_call):
+    """Every value datavector returns is the histogram over the whole domain, or - on a path that has established a one-attribute
+    domain - a count vector with one entry per value of that attribute: numpy.bincount of the single column with self.weights and
+    minlength equal to the attribute's size (without minlength the vector ends at the largest value present)."""
+    from ..srcmodel import clone
+    derived = set()
+    assigns = [n for n in walk_shallow(dv.node) if isinstance(n, ast.Assign)]
+    single = {}
+    for a in assigns:
+        for t in a.targets:
+            if isinstance(t, ast.Name):
+                single.setdefault(t.id, []).append(a.value)
+    changed = True
+    while changed:
+        changed = False
+        for a in assigns:
+            if any(x is hist_call for x in ast.walk(a.value)) or any(isinstance(x, ast.Name) and x.id in derived for x in ast.walk(a.value)):
+                for t in a.targets:
+                    for x in ast.walk(t):
+                        if isinstance(x, ast.Name) and x.id not in derived:
+                            derived.add(x.id)
+                            changed = True
+
+    def resolve(e, depth=0):
+        """text of e with single-assignment locals substituted"""
+        e = clone(e)
+
+        class R(ast.NodeTransformer):
+            def visit_Name(self, n):
+                if isinstance(n.ctx, ast.Load) and len(single.get(n.id, [])) == 1 and depth < 6:
+                    return ast.parse(resolve(single[n.id][0], depth + 1), mode='eval').body
+                return n
+        return ast.unparse(R().visit(e))
+
+    def strip_casts(t):
+        import re
+        prev = None
+        while prev != t:
+            prev = t
+            t = re.sub(r'\.astype\((int|np\.int64|np\.intp|float|np\.int32)\)$', '', t)
+            m = re.fullmatch(r'np\.(asarray|array)\((.*)\)', t)
+            if m and m.group(2).count('(') == m.group(2).count(')') and ',dtype' not in m.group(2).replace(' ', ''):
+                t = m.group(2)
+        return t
+    for r in [n for n in walk_shallow(dv.node) if isinstance(n, ast.Return) and n.value is not None]:
+        v = r.value
+        if any(x is hist_call for x in ast.walk(v)) or any(isinstance(x, ast.Name) and x.id in derived for x in ast.walk(v)):
+            continue
+        counts = [c for c in ast.walk(ast.parse(resolve(v), mode='eval')) if isinstance(c, ast.Call) and U(c.func) in ('np.bincount', 'numpy.bincount')]
+        if len(counts) != 1:
+            raise AnalysisError('Dataset.datavector: `%s` returns a vector that is neither the histogram over the domain nor a recognised '
+                                'count of a single column' % U(r)[:80])
+        c = counts[0]
+        # the path must have established a one-attribute domain
+        guard = None
+        n = r
+        while getattr(n, '_parent', None) is not None and n is not dv.node:
+            par = n._parent
+            if isinstance(par, ast.If) and n in par.body:
+                guard = par.test
+                break
+            n = par
+        gt = U(guard).replace(' ', '') if guard is not None else ''
+        if gt not in ONE_ATTR_TESTS:
+            raise AnalysisError('Dataset.datavector: count of a single column under the unrecognised condition `%s`' % gt)
+        a = list(c.args) + [None] * 3
+        kw = {k.arg: k.value for k in c.keywords}
+        x, w, m = a[0], a[1] if a[1] is not None else kw.get('weights'), a[2] if a[2] is not None else kw.get('minlength')
+        xt = strip_casts(U(x).replace(' ', '')) if x is not None else ''
+        if xt not in ONE_ATTR_COLUMN:
+            raise AnalysisError('Dataset.datavector: unrecognised sample `%s` of bincount' % xt)
+        ctx.ob('histogram', dv, r, w is not None and U(w).replace(' ', '') == 'self.weights',
+               'the single-attribute count must be weighted by self.weights; got `%s`' % (U(w) if w is not None else None),
+               construct='weights of bincount')
+        if m is not None and U(m).replace(' ', '') not in ONE_ATTR_SIZE:
+            raise AnalysisError('Dataset.datavector: unrecognised minlength `%s` of bincount' % U(m))
+        ctx.ob('histogram', dv, r, m is not None,
+               'the single-attribute count must have one entry per value of the attribute (minlength = the attribute\'s size): without it '
+               'numpy.bincount stops at the largest value present and the vector is shorter than the domain', construct='length of bincount')
 
 
 def weights_kept(init, w):
